@@ -230,6 +230,8 @@ class Run:
             resources.append(ResDef(*extra['gvp'], extra['kind'], namespaced=extra.get('namespaced', True),
                                     status_sub=extra.get('status_sub', False)))
         quirks = {k: v for k, v in cl.items() if k.startswith('quirk_')}
+        if cl.get('rv0') is not None:
+            quirks['rv'] = cl['rv0']      # where the cluster's resource versions start (a history may cross a power of ten)
         self.sim = Sim(resources=resources, seed=scenario.get('seed', 0), **quirks)
         self.cluster = self.sim.cluster
         wl = cl.get('watch_latency')
